@@ -95,6 +95,7 @@ func workSignature(h *ssa.Function) bool {
 
 func runC15(c *Ctx) {
 	R := c.R
+	checkResultUsedAfterErrorTest(c)
 	f := c.P.Func("(traceroute.Traceroute).runTracerouteMulti")
 	if f == nil {
 		R.Fail("R15.1", "traceroute.runTracerouteMulti#anchor", 0, "", "anchor (traceroute.Traceroute).runTracerouteMulti no longer resolves")
@@ -429,4 +430,103 @@ func runC15(c *Ctx) {
 	}
 	// mutex discipline of the accumulators
 	checkClosures(c)
+}
+
+// checkResultUsedAfterErrorTest is R15.4: 'if any of them fails the call returns an error ... and no result'. The aggregator
+// returns a nil result together with the joined error, so its caller may touch the result only where the error is known to be nil:
+// a field access that precedes the error test is a nil dereference exactly on the failing requests (a panic instead of the error).
+// Decided for every call, in the front-end packages, of a module function that returns (pointer, error) with a nil pointer on each
+// of its error paths.
+func checkResultUsedAfterErrorTest(c *Ctx) {
+	R := c.R
+	n := 0
+	nilOnError := map[*ssa.Function]bool{}
+	decided := map[*ssa.Function]bool{}
+	for _, f := range c.P.ModFuncs {
+		pk := core.ShortPkg(core.FuncPkg(f))
+		if pk != "traceroute" && pk != "server" && pk != "cmd" || strings.Contains(core.FuncName(f), "Mock") {
+			continue
+		}
+		fn := core.FuncName(f)
+		for _, b := range f.Blocks {
+			for _, in := range b.Instrs {
+				call, ok := in.(*ssa.Call)
+				if !ok {
+					continue
+				}
+				h := call.Common().StaticCallee()
+				if h == nil || !core.InModule(h) || len(h.Blocks) == 0 {
+					continue
+				}
+				res := h.Signature.Results()
+				if res.Len() != 2 || !isErrorType(res.At(1).Type()) {
+					continue
+				}
+				if _, isPtr := res.At(0).Type().Underlying().(*types.Pointer); !isPtr {
+					continue
+				}
+				if !decided[h] {
+					decided[h] = true
+					rps, complete := core.ReturnPaths(c.P, h, 3000)
+					okNil := complete && len(rps) > 0
+					for _, rp := range rps {
+						if rp.Ret.Block().Comment == "recover" {
+							continue
+						}
+						if !rp.Results[1].IsConst("nil") && !rp.Results[0].IsConst("nil") {
+							okNil = false
+						}
+					}
+					nilOnError[h] = okNil
+				}
+				if !nilOnError[h] {
+					continue
+				}
+				var ptr, errv ssa.Value
+				for _, r := range *call.Referrers() {
+					if ex, ok := r.(*ssa.Extract); ok {
+						if ex.Index == 0 {
+							ptr = ex
+						} else {
+							errv = ex
+						}
+					}
+				}
+				if ptr == nil || errv == nil {
+					continue
+				}
+				for _, r := range *ptr.Referrers() {
+					var use ssa.Instruction
+					switch x := r.(type) {
+					case *ssa.FieldAddr:
+						if x.X == ptr {
+							use = x
+						}
+					case *ssa.UnOp:
+						if x.X == ptr && x.Op == token.MUL {
+							use = x
+						}
+					}
+					if use == nil {
+						continue
+					}
+					n++
+					conds, truth := domFacts(use.Block())
+					known := false
+					for i, cd := range conds {
+						if bo, ok := cd.(*ssa.BinOp); ok && bo.X == errv {
+							if k, isK := bo.Y.(*ssa.Const); isK && k.Value == nil {
+								if bo.Op == token.NEQ && !truth[i] || bo.Op == token.EQL && truth[i] {
+									known = true
+								}
+							}
+						}
+					}
+					key := fmt.Sprintf("%s#result-of[%s]@b%d", fn, core.FuncName(h), use.Block().Index)
+					R.Check(known, "R15.4", key, use.Pos(), fn, "the result of "+core.FuncName(h)+" is touched only where its error is known to be nil", "the result of "+core.FuncName(h)+" is dereferenced at "+c.P.PosStr(use.Pos())+" before its error was tested: "+core.FuncName(h)+" returns a nil result with every error, so a failing request panics instead of returning the error that exposes the failures")
+				}
+			}
+		}
+	}
+	R.Floor("R15.4:result-uses", n, 1)
 }
